@@ -1234,7 +1234,8 @@ def run(ctx):
         if n_opt < 50:
             raise core.MachineryError('vacuous run: only %d option events (species with a References object)' % n_opt)
         empty = [k for k in required_counters() if not cov.get(k)]
-        if empty:
+        if empty and not any(v['clause'] == 'Raises' for v in ctx.violations):
+            # (when calls raised, the missing classes are a consequence and the Raises violations are the verdict)
             raise core.MachineryError('vacuous run: input classes never generated: %s' % ', '.join(empty))
     shards = int(os.environ.get('VERIF_SHARDS', '0') or 0) or None
     fails, stats = core.validate_traces('Trace_StatMech', 'Trace', traces, shards=shards)
